@@ -286,6 +286,99 @@ func ZZ_C12_confine_refresh() {
 	carried(w, tok2.GetAccessToken(), scopes, aud)
 }
 
+// ZZ_C12_confine_partial_consent: the application grants a strict subset of what was requested (one of
+// two scopes, one of two audiences); the code exchange and one or two refreshes then carry exactly the
+// granted subset, and the refresh grant consults the policy about the granted values only.
+func ZZ_C12_confine_partial_consent() {
+	p := &policy{}
+	w := newWorld(p)
+	reqScopes := []string{"offline", "photos", "mail"}
+	reqAud := []string{"https://api.example/v1/x", "https://api.example/v1/y"}
+	scopes := [][]string{{"offline", "photos"}, {"offline", "photos", "mail"}, {"offline"}}[zz.Choice("granted_scopes", 3)]
+	aud := [][]string{{"https://api.example/v1/x"}, {"https://api.example/v1/x", "https://api.example/v1/y"}, {}}[zz.Choice("granted_aud", 3)]
+	ar, err := w.Provider.NewAuthorizeRequest(w.Ctx, world.Get(authorizeForm("code", reqScopes, reqAud)))
+	zz.Assume(err == nil)
+	for _, s := range scopes {
+		ar.GrantScope(s)
+	}
+	for _, a := range aud {
+		ar.GrantAudience(a)
+	}
+	resp, err := w.Provider.NewAuthorizeResponse(w.Ctx, ar, world.NewSession("peter"))
+	zz.Assume(err == nil)
+	tok, err := w.Redeem("c1", resp.GetCode())
+	zz.Assume(err == nil)
+	carried(w, tok.GetAccessToken(), scopes, aud)
+	rounds := 1
+	if zz.Thorough() {
+		rounds = 2
+	}
+	for i := 0; i < rounds; i++ {
+		rt := world.RefreshTokenOf(tok)
+		zz.Assume(rt != "")
+		m := p.mark()
+		tok, err = w.Refresh("c1", rt)
+		if !outcome(err) {
+			return
+		}
+		p.confined(m, scopes, aud)
+		carried(w, tok.GetAccessToken(), scopes, aud)
+		zz.Cover("refreshed-with-partial-consent", len(aud) == 1 || len(scopes) == 2)
+	}
+}
+
+// ZZ_C12_confine_device: device authorization endpoint, the user accepts everything requested, then the
+// device code is redeemed at the token endpoint.
+func ZZ_C12_confine_device() {
+	p := &policy{}
+	signer := world.NewModelSigner()
+	w := world.New(world.Options{
+		Extra: []compose.Factory{compose.RFC8628DeviceFactory, compose.RFC8628DeviceAuthorizationTokenFactory},
+		TweakStrategy: func(s *compose.CommonStrategy, cfg *fosite.Config) {
+			s.OpenIDConnectTokenStrategy = &openid.DefaultStrategy{Signer: signer, Config: cfg}
+			s.Signer = signer
+		},
+		Tweak: func(cfg *fosite.Config) {
+			cfg.ScopeStrategy = p.scopeStrategy
+			cfg.AudienceMatchingStrategy = p.audStrategy
+			cfg.DeviceVerificationURL = "https://as.example/device"
+		},
+	})
+	scopes, aud := pick()
+	form := url.Values{"client_id": {"c1"}, "client_secret": {world.Secret1}, "scope": {strings.Join(scopes, " ")}}
+	if len(aud) > 0 {
+		form.Set("audience", strings.Join(aud, " "))
+	}
+	m := p.mark()
+	req, err := w.Provider.NewDeviceRequest(w.Ctx, world.Post(form))
+	if !outcome(err) {
+		return
+	}
+	p.confined(m, scopes, aud)
+	resp, err := w.Provider.NewDeviceResponse(w.Ctx, req, world.NewSession(""))
+	zz.Assume(err == nil)
+	// the user accepts: the application grants what was requested on the stored request
+	for _, stored := range w.Store.DeviceAuths {
+		sess := stored.GetSession().(*fosite.DefaultSession)
+		sess.Subject, sess.Username = "peter", "peter"
+		for _, sc := range stored.GetRequestedScopes() {
+			stored.GrantScope(sc)
+		}
+		for _, a := range stored.GetRequestedAudience() {
+			stored.GrantAudience(a)
+		}
+		stored.SetUserCodeState(fosite.UserCodeAccepted)
+	}
+	tok, err := w.TokenAs("c1", world.Secret1, url.Values{"grant_type": {"urn:ietf:params:oauth:grant-type:device_code"}, "device_code": {resp.GetDeviceCode()}})
+	zz.Observe("poll-err", world.ErrName(err))
+	if err != nil {
+		zz.Cover("poll-refused", true)
+		return
+	}
+	zz.Cover("device-code-redeemed", true)
+	carried(w, tok.GetAccessToken(), scopes, aud)
+}
+
 // ZZ_C12_confine_par: the pushed-authorization handler.
 func ZZ_C12_confine_par() {
 	p := &policy{}
